@@ -25,6 +25,8 @@ def run_case(ctx, mr, case):
         return sibling_case(ctx, case)
     if case.get('shared'):
         return shared_state_case(ctx, case)
+    if case.get('huge'):
+        return huge_read_case(ctx, case)
     v, bio, off, sz = cc.open_view(case)
     base = bytes.fromhex(case['base'])
     key = bytes.fromhex(case['key'])
@@ -61,7 +63,7 @@ def run_case(ctx, mr, case):
     c.flags()
     res = []
     for op in case['ops']:
-        if op[0] == 'w' and op[1] and case['kind'] == 'plain':
+        if op[0] in ('w', 'wv') and op[1] and case['kind'] == 'plain':
             try:
                 if v.tell() > len(c.content):
                     gap[0] = True
@@ -150,6 +152,35 @@ def shared_state_case(ctx, case):
         fail('wrote-underlying', 'the read-only file underneath was changed', 'unchanged', 'changed')
 
 
+def huge_read_case(ctx, case):
+    """one read call that returns far more than any piece size a wrapper might cut its work into, from an unaligned position, in both
+    modes (oracle only: the extracted model works on lists)"""
+    import io
+    from pyctr.fileio import SubsectionIO
+    twl = case['twl']
+    slot = 0x03 if twl else 0x2C
+    key = bytes.fromhex(case['key'])
+    n = case['n']
+    ct = bytes((i * 31 + 7) & 0xFF for i in range(256)) * (n // 256 + 1)
+    ct = ct[:n]
+    e = cc.make_engine(key, slot)
+    off = 0x23
+    bio = io.BytesIO(b'\x11' * off + ct + b'\x22' * 5)
+    under = SubsectionIO(bio, off, n) if case['kind'] == 'window' else io.BytesIO(ct)
+    v = e.create_ctr_io(slot, under, case['ctr'])
+    plain = cc.stream_xor(key, case['ctr'], ct, twl)
+    ctx.stat('huge_reads')
+    for pos, size in case['reads']:
+        v.seek(pos)
+        got = v.read(size)
+        want = plain[pos:] if size < 0 else plain[pos:pos + size]
+        if got != want or v.tell() != pos + len(want):
+            k = next((i for i, (a, b) in enumerate(zip(got, want)) if a != b), min(len(got), len(want)))
+            ctx.diff('oracle', ('twl' if twl else 'ctr') + '-huge-read', dict(case, pos=pos, size=size), want[k:k + 16].hex(), bytes(got[k:k + 16]).hex(),
+                     f'one read({size}) at {pos} of a {n}-byte stream: wrong from byte {k} of the result on (returned {len(got)} bytes, position {v.tell()})')
+            return
+
+
 def sibling_case(ctx, case):
     """two wrappers over two windows of ONE base file, used in turn without seeks in between (and the base file moved by its owner):
     what a wrapper returns depends on its own history only"""
@@ -194,6 +225,10 @@ def gen_cases(ctx, rng, writes):
         yield dict(sib=True, twl=rng.random() < 0.5, base=pyenv.rbytes(rng, 3 + a + gap + b + 2).hex(), wins=[[3, a], [3 + a + gap, b]],
                    keys=[pyenv.rbytes(rng, 16).hex(), pyenv.rbytes(rng, 16).hex()], ctrs=[rng.getrandbits(100), rng.getrandbits(100)],
                    steps=rng.randrange(4, 14), seed=rng.randrange(1 << 30))
+    for _ in range(ctx.n(6, 60)):
+        n = rng.choice([0x10000 + 0x40, 0x18000 + 5, 0x28000])
+        yield dict(huge=True, twl=rng.random() < 0.6, kind=rng.choice(['plain', 'window']), key=pyenv.rbytes(rng, 16).hex(), ctr=rng.getrandbits(100), n=n,
+                   reads=[[rng.choice([1, 5, 16, 17, 0x21]), -1], [rng.choice([3, 0x10, 0x1F]), 0x10000 + rng.choice([1, 16, 0x123])], [0x8003, n]])
     for _ in range(ctx.n(150, 4000)):
         kind = rng.choice(['plain', 'window'])
         sz = rng.choice([0, 1, 16, 17, 33, 48, 100])
